@@ -334,7 +334,8 @@ class FnInfo:
                                 break
                         sccs.append(comp)
         cyc = set()
-        for comp in sccs:
+        self.scc_of = {}
+        for n_, comp in enumerate(sccs):
             if len(comp) == 1:
                 v = comp[0]
                 if v not in succ.get(v, []):
@@ -342,6 +343,7 @@ class FnInfo:
             arith = any(f.insts[v].op not in ("phi", "bitcast", "select", "freeze") for v in comp)
             if arith:
                 for v in comp:
+                    self.scc_of[v] = n_
                     if f.insts[v].op == "phi":
                         cyc.add(v)
         self._cyclic = cyc
@@ -1183,6 +1185,16 @@ class Explorer:
                 for p in b.phis():
                     k = ("i", p.id)
                     if p.id in self.cyclic:
+                        # entry edge of the cycle (the incoming value is not computed inside it): the value is exactly the incoming one;
+                        # only values that come round the cycle are unknown
+                        ent = None
+                        for o, pb in zip(p.ops, p.d["inc"]):
+                            if pb == pred:
+                                ent = o
+                                break
+                        if ent is not None and not (ent[0] == "i" and self.info.scc_of.get(ent[1]) == self.info.scc_of.get(p.id)) and p.id not in self.mono:
+                            newv[k] = self.eval(ent, env)
+                            continue
                         newv[k] = TOP
                         sg = self.mono.get(p.id)
                         if sg:
